@@ -7,8 +7,14 @@
   preserved. `IxInv s`: the indices handed out are exactly `0 … next-1`, each once, across the three kinds
   (`IdxInv`), and per kind no name occurs twice among the indexed and the not yet indexed parameters.
   Resolver: `rsT` rewrites lifetimes and the first segment of type / expression paths only.
+  Idempotence (`C13_canon_idem`): `canon (canon x) = canon x` under the executable condition `canonWF x`
+  (`CanonWF.lean`; proofs in `Lemmas/CanonIdem.lean`): indexing commutes with the resolver when the names of the
+  indexer state are renamed along (`C13_index_commutes`, `C13_indexImpl_commutes`), so the renaming computed for
+  `canon x` is the identity and `canon x` is a fixed point by `C13_canon_fixed`. Every clause of `canonWF` is needed
+  (`C13_canonWF_clauses_needed`).
 -/
 import DisjointImpls.Lemmas.CanonLemmas
+import DisjointImpls.Lemmas.CanonIdem
 namespace DI
 
 /-! ## The indexer -/
@@ -119,6 +125,33 @@ theorem C13_rs_identity (r : Renaming) (hid : r.isId = true) (t : T) (hs : rsSta
     order (the computed renaming is the identity) and no path starts with one of them, nothing changes -/
 theorem C13_canon_fixed (item : T) (h : alreadyCanonical item = true) : canon item = item := canon_fixed item h
 
+
+/-! ## Idempotence -/
+
+/-- the commuting lemma: indexing the rewritten tree from the state with renamed names is indexing the tree and
+    renaming the names of the resulting state. `Stat c`: only declared names are renamed, the new spelling is
+    injective on the declared names across the kinds, no name is declared in two kinds; `Un c s`: the parameters
+    still waiting in `s` are declared ones; `rsOK c t`: the executable condition on the tree (`CanonWF.lean`) -/
+theorem C13_index_commutes (c : CCtx) (st : Stat c) (t : T) (hok : rsOK c t = true) (s : IxState) (hu : Un c s) :
+    ixT (mapS c.r s) (rsT c.r t) = mapS c.r (ixT s t) := ixT_comm c st t hok s hu
+
+/-- `Stat` holds for the renaming the indexer computes, under the executable conditions -/
+theorem C13_canonWF_stat (item : T) (hd : namesDistinct (canonCtx item) = true) (hf : deadFresh item = true) :
+    Stat (canonCtx item) := canon_stat item hd hf
+
+/-- … through the rounds over the bounds of the indexed parameters and the where-clause as well: indexing the
+    canonicalised impl gives the state of the first indexing with the names replaced by their canonical names
+    (same indices, same order) -/
+theorem C13_indexImpl_commutes (item : T) (h : canonWF item = true) :
+    indexImpl (canon item) = mapS (indexImpl item).renaming (indexImpl item) := canonWF_indexImpl_comm item h
+
+/-- the canonicalised impl satisfies the side condition of `C13_canon_fixed` -/
+theorem C13_canon_is_canonical (item : T) (h : canonWF item = true) : alreadyCanonical (canon item) = true :=
+  canon_alreadyCanonical item h
+
+/-- **idempotence of canonicalisation** -/
+theorem C13_canon_idem (item : T) (h : canonWF item = true) : canon (canon item) = canon item := canon_idem item h
+
 /-! ## Closed examples -/
 
 namespace Ex13
@@ -157,6 +190,50 @@ def namedCanon : T :=
   implOf [tyParam "_ŠČ1" [], tyParam "_ŠČ0" [traitBound (trWith "Tr" (.tparam "_ŠČ1"))]]
     (tuple [.tparam "_ŠČ0", .node "Type::Path" [] [.node "Some" [] [.node "QSelf" [] [.tparam "_ŠČ0", .node "Atom" ["0"] [], leaf "None"]],
       .node "Path" [] [.node "IgnL" [] [.node "Some" ["PathSep"] []], .node "List" [] [seg "Target"]]]])
+def lifetime (x : String) : T := .node "Lifetime" [] [.node "Ident" [x] []]
+def ltParam (x : String) : T :=
+  .node "GenericParam::Lifetime" [] [.node "LifetimeParam" [] [attrs, lifetime x, leaf "None", .node "List" [] []]]
+def coParam (x : String) : T :=
+  .node "GenericParam::Const" [] [.node "ConstParam" [] [attrs, .node "Ident" [x] [], tyPath [seg "usize"], leaf "None", leaf "None"]]
+def exprPath (segs : List T) : T := .node "Expr::Path" [] [attrs, leaf "None", path segs]
+def array (elem len : T) : T := .node "Type::Array" [] [elem, len]
+def wherePred (bounded : T) (bounds : List T) : T :=
+  .node "WherePredicate::Type" [] [.node "PredicateType" [] [leaf "None", bounded, .node "List" [] bounds]]
+/-- like `implOf`, with trait path and where-clause -/
+def implOfW (params : List T) (tr : T) (self : T) (preds : List T) : T :=
+  .node "ItemImpl" [] [attrs, leaf "None", leaf "None",
+    .node "Generics" [] [leaf "Some", .node "List" [] params, leaf "Some",
+      .node "Some" [] [.node "WhereClause" [] [.node "List" [] preds]]],
+    .node "Some" [] [.node "Tuple" [] [leaf "None", tr]], self, .node "List" [] []]
+def kitaLt (x : String) : T :=
+  path [.node "PathSegment" [] [.node "Ident" ["Kita"] [], .node "PathArguments::AngleBracketed" [] [.node "Ign" [] [leaf "None"],
+    .node "List" [] [.node "GenericArgument::Lifetime" [] [lifetime x]]]]]
+def qselfTy (self : T) (segs : List T) : T :=
+  .node "Type::Path" [] [.node "Some" [] [.node "QSelf" [] [self, .node "Atom" ["1"] [], leaf "Some"]], path segs]
+
+/-- `impl<'a, T: Tr<U>, U, const N: usize> Kita<'a> for [T; N] where U: Tr<T::Target> {}` -/
+def mixed : T :=
+  implOfW [ltParam "a", tyParam "T" [traitBound (trWith "Tr" (tyPath [seg "U"]))], tyParam "U" [], coParam "N"]
+    (kitaLt "a") (array (tyPath [seg "T"]) (exprPath [seg "N"]))
+    [wherePred (tyPath [seg "U"]) [traitBound (trWith "Tr" (tyPath [seg "T", seg "Target"]))]]
+
+/-- `impl<_ŠČ0: Tr<U>, T, U> Kita for T {}` -/
+def cxDead : T := implOf [tyParam "_ŠČ0" [traitBound (trWith "Tr" (tyPath [seg "U"]))], tyParam "T" [], tyParam "U" []] (tyPath [seg "T"])
+/-- `impl<'a, a: Tr<U>, U> Kita for a {}`: a lifetime and a type parameter of one spelling (legal) -/
+def ltTySame : T := implOf [ltParam "a", tyParam "a" [traitBound (trWith "Tr" (tyPath [seg "U"]))], tyParam "U" []] (tyPath [seg "a"])
+/-- `impl<N, const N: usize, U> Kita for ([u8; N], [u8; N], U) {}`: a type and a const parameter of one spelling
+    (E0403 in Rust) -/
+def cxNames : T := implOf [tyParam "N" [], coParam "N", tyParam "U" []]
+  (tuple [array (tyPath [seg "u8"]) (exprPath [seg "N"]), array (tyPath [seg "u8"]) (exprPath [seg "N"]), tyPath [seg "U"]])
+/-- `impl<T, U> Kita for (_ŠČ1, T, U) {}` -/
+def cxCapture : T := implOf [tyParam "T" [], tyParam "U" []] (tuple [.tparam "_ŠČ1", tyPath [seg "T"], tyPath [seg "U"]])
+/-- `impl<T, U> Kita for (T::U,) {}` -/
+def cxSecond : T := implOf [tyParam "T" [], tyParam "U" []] (tuple [tyPath [seg "T", seg "U"]])
+/-- `impl<T, Clone> Kita for <T as Clone>::Out {}` -/
+def cxQself : T := implOf [tyParam "T" [], tyParam "Clone" []] (qselfTy (tyPath [seg "T"]) [seg "Clone", seg "Out"])
+/-- `impl<const N: usize, const M: usize> Kita for ([u8; N::X], [u8; M]) {}` -/
+def cxConst : T := implOf [coParam "N", coParam "M"]
+  (tuple [array (tyPath [seg "u8"]) (exprPath [seg "N", seg "X"]), array (tyPath [seg "u8"]) (exprPath [seg "M"])])
 end Ex13
 
 section Examples
@@ -179,6 +256,46 @@ theorem C13_idempotent_examples :
     canon (canon swapped) = canon swapped ∧ canon (canon named) = canon named ∧
     alreadyCanonical (canon swapped) = true ∧ alreadyCanonical (canon named) = true ∧
     alreadyCanonical swapped = false := by
+  with_unfolding_all decide
+
+
+/-- non-vacuity of `C13_canon_idem`: user names, reserved names in the wrong order, and a block with a lifetime, a
+    const parameter, a where-clause and a multi-segment path -/
+theorem C13_canonWF_examples :
+    canonWF named = true ∧ canonWF swapped = true ∧ canonWF mixed = true ∧
+    (indexImpl mixed).renaming = ⟨[("a", "_ŠČ0")], [("T", "_ŠČ1"), ("U", "_ŠČ3")], [("N", "_ŠČ2")]⟩ ∧
+    canonWF (canon mixed) = true := by
+  with_unfolding_all decide
+
+/-- a lifetime and a type parameter may share their spelling (`'a` next to `a`): the declaration of the type
+    parameter is found (its bound is walked, `U` is numbered), and the block satisfies `canonWF` -/
+theorem C13_lifetime_and_type_of_one_name :
+    (indexImpl ltTySame).renaming = ⟨[], [("a", "_ŠČ0"), ("U", "_ŠČ1")], []⟩ ∧ canonWF ltTySame = true ∧
+    canon (canon ltTySame) = canon ltTySame := by
+  with_unfolding_all decide
+
+/-- every clause of `canonWF` is needed: six blocks, each violating exactly one clause (`deadFresh`,
+    `namesDistinct`, and four ways of violating `rsOK`: a free type spelled like a name handed out, a second path
+    segment spelled like a parameter, a qualified path whose trait is spelled like a parameter — the open finding
+    F-C13-qualified-path-trait-capture —, a const parameter at the head of a longer path), and canonicalising twice
+    changes each of them. (`cxNames` — a type and a const parameter of one name — is rejected by rustc, E0403; for
+    the other half of `namesDistinct`, distinct lifetimes, no block that canonicalises differently the second time is
+    known: the proof uses it to read the identity renaming off the canonical block.) -/
+theorem C13_canonWF_clauses_needed :
+    (deadFresh cxDead = false ∧ canon (canon cxDead) ≠ canon cxDead) ∧
+    (namesDistinct (canonCtx cxNames) = false ∧ canon (canon cxNames) ≠ canon cxNames) ∧
+    (rsOK (canonCtx cxCapture) cxCapture = false ∧ canon (canon cxCapture) ≠ canon cxCapture) ∧
+    (rsOK (canonCtx cxSecond) cxSecond = false ∧ canon (canon cxSecond) ≠ canon cxSecond) ∧
+    (rsOK (canonCtx cxQself) cxQself = false ∧ canon (canon cxQself) ≠ canon cxQself) ∧
+    (rsOK (canonCtx cxConst) cxConst = false ∧ canon (canon cxConst) ≠ canon cxConst) := by
+  with_unfolding_all decide
+
+/-- … and only that clause -/
+theorem C13_canonWF_one_clause_each :
+    [cxDead, cxNames, cxCapture, cxSecond, cxQself, cxConst].map
+      (fun x => (implDeclsOK x, namesDistinct (canonCtx x), deadFresh x, rsOK (canonCtx x) x)) =
+    [(true, true, false, true), (true, false, true, true), (true, true, true, false), (true, true, true, false),
+     (true, true, true, false), (true, true, true, false)] := by
   with_unfolding_all decide
 
 /-- the side condition of `C13_rs_identity` is needed: a multi-segment path is rebuilt as `<T>::A` even by an
